@@ -53,9 +53,11 @@ ASSUMPTIONS = [
     "sym shards: the module global `math` of type_checker.py is wrapped so that math.isnan(<int or Fraction>) answers "
     "False without converting (CrossHair would realise the value); exact for magnitudes below 2^1024",
     "sym shards: hash-consing tables keyed syntactically (S2'); node sharing is not the subject here",
-    "sym shards with '/': under the pinned real-based float model int / int is the exact quotient, so these shards decide "
-    "the interval LOGIC of walk_div (which bounds, which signs, which None) for all operand values; the ROUNDING of "
-    "the float division is decided separately and exactly in layer 2",
+    "sym shards with '/': constant divisors are concrete (pool -4,-3,-1,1,2,7) and bounded divisor fluents are not point-typed, "
+    "because exact Fraction division by a symbolic integer loops in gcd under CrossHair; all dividends stay symbolic. These "
+    "shards decide the interval LOGIC of walk_div; all operand VALUES of Div(l, r) are decided in layer 2 (if walk_div used "
+    "float division again, the pinned real-based float model would treat int / int as the exact quotient here and layer 2 "
+    "would decide the rounding with the IEEE-754 encoding)",
     "layer 2 encodes: int / int  as  fp.div(RNE, to_fp(RNE, l), to_fp(RNE, r)) on Float64 (equal to Python's correctly "
     "rounded quotient because |l|, |r| <= 2^53 are exactly representable), float(+-inf) / int by sign, Fraction(float) "
     "as fp.to_real, Fraction(int[, int]) and Fraction arithmetic exactly in rationals, min/max/comparisons by forking "
@@ -98,6 +100,7 @@ CONC_REAL = [(None, None), (None, -3 * _H), (None, 0), (None, _H), (-3 * _H, Non
              (-3 * _H, -_H), (-3 * _H, _H), (0, _H), (_H, 3), (_H, _H), (-2, -2)]
 CONC_CONST = [-4, -1, 0, 2, _H, -_H, Fraction(4)]     # Fraction(4): a REAL constant with an integer value
 SYM_KINDS = ["Ib", "Il", "Iu", "In", "c", "Rb", "q"]
+DIVISORS = [-4, -3, -1, 1, 2, 7]
 
 
 def conc_kinds():
@@ -171,6 +174,12 @@ def _leaf(ctx, env, i, kind, den=1, win=(None, None)):
         return fluent(tm.IntType(None, None))
     if kind == "c":
         return em.Int(ctx.int(f"c{i}", *win))
+    if kind == "cd":   # concrete constant (divisor candidates in the sym shards: Fraction division by a symbolic
+        return em.Int(DIVISORS[ctx.choice(f"cd{i}", len(DIVISORS))])  # integer would loop in gcd)
+    if kind == "Ibn":  # bounded, not a point
+        lo, hi = ctx.int(f"lo{i}", *win), ctx.int(f"hi{i}", *win)
+        ctx.assume(lo < hi)
+        return fluent(tm.IntType(lo, hi))
     if kind == "Rb":
         lo, hi = ctx.int(f"lo{i}", *win), ctx.int(f"hi{i}", *win)
         ctx.assume(lo <= hi)
@@ -937,7 +946,7 @@ def shards(tier, seed):
     for nm, firsts in (("Ib", ["Ib"]), ("half", ["Il", "Iu"]), ("In-c-q", ["In", "c", "q"]), ("Rb", ["Rb"])):
         sym(f"bin-times-{nm}", "bin", [c for c in c2 if c[0] in firsts], [["*"]])
     INTK = ["Ib", "Il", "Iu", "In", "c"]
-    sym("bin-div", "bin", _sym_combos(2, INTK), [["/"]])
+    sym("bin-div", "bin", [[a, b] for a in INTK for b in ["Ibn", "Il", "Iu", "In", "cd"]], [["/"]])
     # ---- layer 1, concrete bounds, every 3-node tree over the full pool (both tiers)
     conc("bin-plus-minus", "bin", K, [["+"], ["-"]])
     conc("bin-times-div", "bin", K, [["*"], ["/"]])
@@ -965,7 +974,7 @@ def shards(tier, seed):
         for p in PAIRS4:
             if "/" in p:
                 for shape in ("left", "right"):
-                    sym(f"{shape}-{NM[p[0]]}-{NM[p[1]]}-int", shape, _sym_combos(3, ["Ib", "Iu", "c"]), [p])
+                    sym(f"{shape}-{NM[p[0]]}-{NM[p[1]]}-int", shape, _sym_combos(3, ["Ibn", "Iu", "cd"]), [p])
         sym("bin-halves", "bin", _sym_combos(2, ["Ib", "c", "Rb", "q"]), [["+"], ["-"], ["*"]], den=2)
         sym("nary3-plus", "nary3", _sym_combos(3, SYM_KINDS), [["+"]])
         for k0 in I4:
